@@ -1,6 +1,6 @@
 """C19 — kernel property: see DESIGN.md section 5 and harness/kprop.py.
 
-Eight parts (all run by `run`):
+Nine parts (all run by `run`):
  1. kernel correspondence + views oracle (harness/kprop.py, koracle.c19_views) on the feature templates of kgen;
  2. `meta_views`: class-graph edit histories, every view against Model/MetaViews.v and an independent closure;
  3. `subtree_scenarios` (implementation only, PRNG stream 'C19:subtrees'): random class hierarchies in which
@@ -65,6 +65,19 @@ Eight parts (all run by `run`):
     edit call raises, the edit is stored: pyecore tells observers after the change) and the same oracle runs right
     afterwards, as it does after every quiet edit.  (On the unchanged code the internal listeners of an EClass run
     before the user's observers, so the state is consistent at all three moments.)
+ 9. `value_equal_scenarios` (PRNG stream 'C19:valueeq'): STATIC classes (@EMetaclass) whose instances compare by value
+    (__eq__/__hash__ on the name; names from a pool of three) and/or are falsy (__len__ = number of subfolders, or
+    __bool__ False).  Containment trees (two many-valued references, one single-valued, two resources) in which
+    value-equal objects sit along one container chain and in different branches, never inside one collection (unique
+    collections and resource.contents are equality-based by design).  After every edit (append/insert/extend, set,
+    move between parents, remove, delete, to/from a resource) and for every object: eRoot() is the end of the
+    eContainer() chain and of the holders read from the containment slots BY IDENTITY; eContents / eAllContents are,
+    by identity, the children / every descendant exactly once; eResource is the resource holding the root.
+    Not generated (the unchanged code breaks the OWNERSHIP there, C02's subject, not the views): moving an object
+    between two value-equal parents (_update_container compares containers with !=: the object stays in both), and
+    moving an object whose resource has a ROOT equal to it (`value in resource.contents` is an equality test: that
+    root is taken out of resource.contents and keeps its _eresource).  A case is left (and counted) if an object is
+    found in two containment slots.
 """
 from harness import kgen, kprop
 
@@ -90,7 +103,7 @@ def replay(ctx, rep):
     if case.get('scenario'):
         return common.scenario_replay(ctx, rep, {'subtrees': subtree_scenarios, 'generic': generic_scenarios,
                                                  'containers': container_scenarios, 'assign': assign_scenarios,
-                                                 'observed': observed_edit_scenarios})
+                                                 'observed': observed_edit_scenarios, 'valueeq': value_equal_scenarios})
     r = krun.Run(case, ['C19']).run()
     for s in r.steps:
         print(s['op'], '->', s['outcome'])
@@ -1954,6 +1967,259 @@ def observed_edit_scenarios(ctx, out):
     out.coverage['observed_sample'] = sample
 
 
+# ---------------- 9. static classes whose instances compare by value / are falsy ----------------
+def _folder_class(E, by_value, falsy):
+    class Folder(object):
+        name = E.EAttribute(eType=E.EString)
+        subfolders = E.EReference(upper=-1, containment=True)
+        extra = E.EReference(upper=-1, containment=True)
+        main = E.EReference(containment=True)
+
+        def __init__(self, name=None):
+            self.name = name
+
+        def __repr__(self):
+            return f'Folder({self.name})'
+    if by_value:
+        Folder.__eq__ = lambda s, o: type(o) is type(s) and s.name == o.name
+        Folder.__hash__ = lambda s: hash(s.name)
+    if falsy == 'len':
+        Folder.__len__ = lambda s: len(s.subfolders)
+    elif falsy == 'bool':
+        Folder.__bool__ = lambda s: False
+    F = E.EMetaclass(Folder)
+    for r in (F.subfolders, F.extra, F.main):
+        r.eType = F
+    return F
+
+
+def value_equal_scenarios(ctx, out):
+    """see the module docstring, part 9"""
+    from harness import common
+    common.use_repo()
+    from pyecore import ecore as E
+    from pyecore.resources import ResourceSet, URI
+    rng = common.rng_for(ctx.seed, 'C19:valueeq')
+    n = 200 if ctx.tier != 'thorough' else 4000
+    variants = [('value', True, None), ('value+len', True, 'len'), ('len', False, 'len'), ('bool', False, 'bool'), ('value+bool', True, 'bool')]
+    classes = {v[0]: _folder_class(E, v[1], v[2]) for v in variants}
+    st = {'cases': 0, 'ops': 0, 'views': 0, 'equal_to_an_ancestor': 0, 'equal_in_other_branch': 0, 'falsy_views': 0,
+          'primary_state_ambiguous': 0, 'raised': 0, 'skipped_move_between_equal_parents': 0,
+          'skipped_move_equal_to_a_root_of_its_resource': 0}
+    sample = None
+    MANY = ['subfolders', 'extra']
+    for it in range(n):
+        vname = rng.choice([v[0] for v in variants])
+        F = classes[vname]
+        by_value = vname.startswith('value')
+        rset = ResourceSet()
+        res = [rset.create_resource(URI(f'mem{it}_{i}')) for i in range(2)]
+        objs = []
+        hist = [['case', it, vname]]
+        ok = True
+
+        def idx(o):
+            for i, p in enumerate(objs):
+                if p is o:
+                    return i
+            return repr(o)
+
+        def new():
+            objs.append(F(rng.choice('abc')))
+            return len(objs) - 1
+
+        def slots(x):
+            """children of objs[x] by slot, read from the primary values"""
+            o = objs[x]
+            d = {f: list(o.eGet(f)) for f in MANY}
+            d['main'] = [] if o.main is None else [o.main]
+            return d
+
+        def tree():
+            kids = {x: [(idx(v), f) for f, vs in slots(x).items() for v in vs] for x in range(len(objs))}
+            parent = {}
+            for x in kids:
+                for (c, f) in kids[x]:
+                    if not isinstance(c, int) or c in parent:
+                        return None, None
+                    parent[c] = (x, f)
+            return kids, parent
+
+        def below(kids, x, seen=None):
+            seen = {x} if seen is None else seen
+            r = []
+            for (c, _) in kids[x]:
+                if c not in seen:
+                    seen.add(c)
+                    r.append(c)
+                    r += below(kids, c, seen)
+            return r
+
+        def names(vs):
+            return [v.name for v in vs]
+
+        def check():
+            kids, parent = tree()
+            if kids is None:
+                st['primary_state_ambiguous'] += 1      # an object held twice: ownership (C02), not a question about the views
+                return None
+            where = {}
+            for ri, r in enumerate(res):
+                for root in list(r.contents):
+                    if isinstance(idx(root), int):
+                        where[idx(root)] = ri
+            case = {'scenario': 'valueeq', 'seed': ctx.seed, 'tier': ctx.tier, 'history': [list(h) for h in hist]}
+
+            def fail(clause, what):
+                out.fail({'property': 'C19', 'clause': clause, 'scenario': 'valueeq', 'instances': vname},
+                         f'{what} [instances: {vname}; names {[o.name for o in objs]}; holders {parent}] after {hist[-1]}', case)
+                return False
+            for x, o in enumerate(objs):
+                st['views'] += 1
+                if not by_value or vname != 'value':
+                    st['falsy_views'] += (not bool(o))
+                top, chain = x, []
+                while top in parent:
+                    top = parent[top][0]
+                    chain.append(top)
+                if any(objs[a].name == o.name for a in chain):
+                    st['equal_to_an_ancestor'] += 1
+                elif any(objs[y].name == o.name and y != x and top in ([y] + [a for a in _chain(parent, y)]) for y in range(len(objs))):
+                    st['equal_in_other_branch'] += 1
+                end, hops = o, 0
+                while end.eContainer() is not None and hops < 100:
+                    end, hops = end.eContainer(), hops + 1
+                r = o.eRoot()
+                if r is not end or end is not objs[top]:
+                    return fail('eroot', f'obj{x}.eRoot() is obj{idx(r)}, the eContainer() chain ends at obj{idx(end)}, '
+                                         f'the holders read from the containment slots end at obj{top}')
+                want = sorted(c for (c, _) in kids[x])
+                got = sorted(idx(v) for v in o.eContents) if all(isinstance(idx(v), int) for v in o.eContents) else None
+                if got != want:
+                    return fail('econtents', f'obj{x}.eContents = {[idx(v) for v in o.eContents]} but its containment slots hold {want}')
+                desc = sorted(below(kids, x))
+                allc = [idx(v) for v in o.eAllContents()]
+                if sorted(map(str, allc)) != sorted(map(str, desc)):
+                    return fail('eallcontents', f'obj{x}.eAllContents() = {allc} (by identity) but the objects transitively held are {desc}')
+                wres = where.get(top)
+                gres = next((ri for ri, rr in enumerate(res) if o.eResource is rr), None if o.eResource is None else 'other')
+                if gres != wres:
+                    return fail('eresource', f'obj{x}.eResource is resource {gres} but its root obj{top} is in the contents of resource {wres}')
+            return True
+
+        def can_hold(p, f, x, kids):
+            """never two value-equal objects in one collection; no containment cycle"""
+            if p == x or p in below(kids, x):
+                return False
+            if f != 'main' and any(objs[c].name == objs[x].name and c != x for (c, ff) in kids[p] if ff == f):
+                return False
+            return True
+
+        for _ in range(rng.randrange(1, 3)):
+            new()
+        for step in range(rng.randrange(4, 14)):
+            kids, parent = tree()
+            if kids is None:
+                st['primary_state_ambiguous'] += 1
+                break
+            r = rng.random()
+            act = None
+            if r < 0.45:
+                p = rng.randrange(len(objs))
+                if rng.random() < 0.6:
+                    p = len(objs) - 1                 # grow chains
+                f = rng.choice(MANY + ['subfolders', 'main'])
+                x = new()
+                k2 = dict(kids)
+                k2[x] = []
+                if not can_hold(p, f, x, k2) or (f == 'main' and objs[p].main is not None and rng.random() < 0.5):
+                    hist.append(['new', objs[x].name])
+                elif f == 'main':
+                    hist.append(['new-main', p, objs[x].name])
+                    act = lambda: setattr(objs[p], 'main', objs[x])
+                else:
+                    how = rng.choice(['append', 'insert0', 'extend'])
+                    hist.append(['new-child', p, f, objs[x].name, how])
+                    coll = objs[p].eGet(f)
+                    act = ((lambda: coll.append(objs[x])) if how == 'append' else (lambda: coll.insert(0, objs[x])) if how == 'insert0'
+                           else (lambda: coll.extend([objs[x]])))
+            elif r < 0.65 and len(objs) > 1:
+                x, p = rng.randrange(len(objs)), rng.randrange(len(objs))
+                f = rng.choice(MANY + ['main'])
+                if not can_hold(p, f, x, kids):
+                    continue
+                if by_value and x in parent and objs[parent[x][0]].name == objs[p].name and parent[x][0] != p:
+                    # (moving between two value-equal parents: _update_container compares containers with != and leaves the
+                    #  object in both; ownership, not this property: not generated)
+                    st['skipped_move_between_equal_parents'] += 1
+                    continue
+                top = ([x] + _chain(parent, x))[-1]
+                if by_value and any(v.name == objs[x].name and v is not objs[x] for rr in res for v in rr.contents
+                                    if any(w is objs[top] for w in rr.contents)):
+                    # (the resource of the moved object has a ROOT equal to it: _update_container tests `value in
+                    #  resource.contents` by equality and takes that root out of the resource; ownership (C02), not generated)
+                    st['skipped_move_equal_to_a_root_of_its_resource'] += 1
+                    continue
+                hist.append(['move', x, p, f])
+                act = (lambda: setattr(objs[p], 'main', objs[x])) if f == 'main' else (lambda: objs[p].eGet(f).append(objs[x]))
+            elif r < 0.78:
+                held = [(c, p, f) for c, (p, f) in parent.items()]
+                if not held:
+                    continue
+                c, p, f = rng.choice(held)
+                hist.append(['take-out', p, f, c])
+                act = (lambda: setattr(objs[p], 'main', None)) if f == 'main' else (lambda: objs[p].eGet(f).remove(objs[c]))
+            elif r < 0.86:
+                x = rng.randrange(len(objs))
+                hist.append(['delete', x])
+                act = lambda: objs[x].delete()
+            elif r < 0.95:
+                x, ri = rng.randrange(len(objs)), rng.randrange(2)
+                if any(v.name == objs[x].name and v is not objs[x] for v in res[ri].contents):
+                    continue
+                hist.append(['to-resource', x, ri])
+                act = lambda: res[ri].append(objs[x])
+            else:
+                roots = [(ri, v) for ri, rr in enumerate(res) for v in rr.contents]
+                if not roots:
+                    continue
+                ri, v = rng.choice(roots)
+                hist.append(['from-resource', idx(v), ri])
+                act = lambda: res[ri].remove(v)
+            if act is not None:
+                try:
+                    act()
+                except Exception as e:  # noqa  (what an edit refuses is not this property's subject; the views are compared anyway)
+                    st['raised'] += 1
+                    hist[-1] = hist[-1] + [type(e).__name__]
+            st['ops'] += 1
+            ok = check()
+            if not ok:
+                break
+        st['cases'] += 1
+        if sample is None and ok and len(hist) > 6:
+            sample = {'scenario': 'valueeq', 'history': [list(h) for h in hist]}
+    out.coverage['valueeq_cases'] = st['cases']
+    out.coverage['valueeq_operations'] = st['ops']
+    out.coverage['valueeq_object_views_checked'] = st['views']
+    out.coverage['valueeq_views_of_an_object_equal_to_one_of_its_ancestors'] = st['equal_to_an_ancestor']
+    out.coverage['valueeq_views_of_an_object_equal_to_one_elsewhere_in_its_tree'] = st['equal_in_other_branch']
+    out.coverage['valueeq_views_of_falsy_objects'] = st['falsy_views']
+    out.coverage['valueeq_operations_refused'] = st['raised']
+    out.coverage['valueeq_cases_left_because_an_object_was_held_twice'] = st['primary_state_ambiguous']
+    out.coverage['valueeq_moves_between_equal_parents_not_generated'] = st['skipped_move_between_equal_parents']
+    out.coverage['valueeq_moves_of_an_object_equal_to_a_root_of_its_resource_not_generated'] = st['skipped_move_equal_to_a_root_of_its_resource']
+    out.coverage['valueeq_sample'] = sample
+
+
+def _chain(parent, y):
+    out = []
+    while y in parent:
+        y = parent[y][0]
+        out.append(y)
+    return out
+
+
 _run3 = run
 
 
@@ -1965,3 +2231,4 @@ def run(ctx, out):   # noqa: F811
     container_scenarios(ctx, out)
     assign_scenarios(ctx, out)
     observed_edit_scenarios(ctx, out)
+    value_equal_scenarios(ctx, out)
